@@ -82,7 +82,10 @@ impl PathAndQueryWithSkipped {
                     query_param.push_str(&utf8_percent_encode(value, QUERY_ENCODE_SET).to_string());
                 }
 
-                if config.ignore_marketing_query_params && config.marketing_query_params.contains(key) {
+                let is_marketing_param = config.marketing_query_params.contains(key)
+                    || (config.ignore_path_and_query_case && config.marketing_query_params.iter().any(|param| param.eq_ignore_ascii_case(key)));
+
+                if config.ignore_marketing_query_params && is_marketing_param {
                     if !skipped_query_params.is_empty() {
                         skipped_query_params.push('&')
                     }
